@@ -121,6 +121,37 @@ def eosAns (k : Kind) (d : Bytes) (closed : Bool) (pos : Nat) : Ans Bool :=
   | .bytesIO => .ok (pos == d.length)
   | _ => if pos < d.length then .ok false else if closed then .ok true else .wait
 
+/-! ### below `read n`: raw `read()` calls that may come back short
+
+`readFromStream` (after the repair "a short read while more octets are readily available is not an
+underrun") keeps asking for what is missing until the stream has nothing more.  `rawRead` is one
+`substrate.read(n)` on a growing stream that hands out at most `cap + 1` octets per call (any
+`cap`, possibly different for every call: pipes, sockets, `MAX_READ_SIZE`); `gatherLoop` is the loop.
+`Proofs/StreamRaw.lean` shows the loop computes `readAns`, whatever the caps. -/
+
+/-- one `substrate.read(n)`: `none` = None (no data yet), `some []` = b'' -/
+def rawRead (d : Bytes) (closed : Bool) (cap : Nat) (pos n : Nat) : Option Bytes :=
+  if n = 0 then some []
+  else if d.length ≤ pos then (if closed then some [] else none)
+  else some ((d.drop pos).take (min n (cap + 1)))
+
+/-- the collecting loop: `acc` = octets received so far, `missing` = octets still to come;
+    `capOf i` = the cap of the call made with `i` units of fuel left -/
+def gatherLoop (d : Bytes) (closed : Bool) (capOf : Nat → Nat) : Nat → Nat → Nat → Bytes → Ans Bytes
+  | 0, _, _, acc => .ok acc
+  | fuel + 1, pos, missing, acc =>
+    if missing = 0 then .ok acc
+    else
+      match rawRead d closed (capOf fuel) pos missing with
+      | none => .wait                 -- rewind, yield SubstrateUnderrunError
+      | some [] => .eos               -- raise EndOfStreamError
+      | some (x :: xs) =>
+        gatherLoop d closed capOf fuel (pos + (x :: xs).length) (missing - (x :: xs).length) (acc ++ x :: xs)
+
+/-- `readFromStream(substrate, n)` over raw reads with arbitrary caps -/
+def readFromStreamRaw (d : Bytes) (closed : Bool) (capOf : Nat → Nat) (pos n : Nat) : Ans Bytes :=
+  gatherLoop d closed capOf (n + 1) pos n []
+
 /-- `substrate.markedPosition = substrate.tell()`; CachingStreamWrapper drops its cache and renumbers
     when more than `B` octets of it have been consumed -/
 def St.setMark (k : Kind) (B : Nat) (s : St ε) : St ε :=
